@@ -98,7 +98,14 @@ class Known:
         self.hits = {e["id"]: 0 for e in self.entries}
         self._index = {}
         for e in self.entries:
-            for d in e.get("inputs", []):
+            inputs = list(e.get("inputs", []))
+            if e.get("inputs_file"):
+                # long explicit lists of failing inputs live in their own committed file
+                fp = os.path.join(VERIF, e["inputs_file"])
+                if os.path.exists(fp):
+                    with open(fp) as f:
+                        inputs += [l.rstrip("\n") for l in f if l.strip()]
+            for d in inputs:
                 self._index.setdefault(d, []).append(e)
 
     def match(self, descriptor, config=None, host=None, divergence=None, count=True):
